@@ -15,7 +15,8 @@
 * `Track.operate(Operator.FILTER, af_in, kernel, af_out)` on a track seen as named signals
   (`operate`): a kernel given as the name of a feature, the order of the failures (kernel
   preparation, even window, reserved output name, empty track, unknown input feature), the
-  creation of the output feature;
+  creation of the output feature; the argument forms of `Track.operate` (`operateArgs`: output name
+  omitted, lists of input / output names filtered pair by pair with the same kernel object);
 * `filter_seq` (tracklib/algo/filtering.py): integer kernel, one-element list, the dispatch on `dim`
   (default argument / module constant `FILTER_…` / list / a single `str` walked character by
   character; coordinates written through the feature `temp`, other names filtered in place), and
@@ -34,6 +35,7 @@ inductive Err where
   | feature      -- unknown analytical feature, or a reserved name (x, y, z, t, timestamp, idx) as output feature
   | emptyTrack   -- `createAnalyticalFeature` on a track without observation (AnalyticalFeatureError)
   | nanKernel    -- a kernel given as a feature name whose values contain NaN (every weight becomes NaN): not modelled
+  | operands     -- `Track.operate` with lists of input and output names of different lengths (OperatorError, in fact a NameError)
   deriving DecidableEq, Repr
 
 section core
@@ -304,6 +306,41 @@ def operate [BEq α] (t : Sigs α) (afIn : String) (kern : KSrc α) (afOut : Str
           match filterWindowG v w boundary np with
           | .error e => .error e
           | .ok out => .ok (nextSrc kern k', out, setSig t1 afOut out)
+
+/-- the first and third arguments of `Track.operate(Operator.FILTER, arg1, kernel, arg3)` (`Filter` is a
+`ScalarVoidOperator`): one feature name or a list of them; `arg3` may be omitted (`None`) -/
+inductive OpNames where
+  /-- `arg1` is a `str`: one call of `Filter.execute`, whose result is returned -/
+  | one (afIn : String) (afOut : Option String)
+  /-- `arg1` is a list: one call per pair `(arg1[i], arg3[i])`, nothing is returned -/
+  | many (ins : List String) (outs : Option (List String))
+  deriving DecidableEq, Repr
+
+/-- `for i in range(len(arg1)): operator.execute(self, arg1[i], arg2, arg3[i])`: the kernel is the same Python
+object at every turn (a weight list is normalised again each time), each turn sees the track as the former left it -/
+def operatePairs [BEq α] : List (String × String) → KSrc α → Sigs α → Except Err (KSrc α × Sigs α)
+  | [], kern, t => .ok (kern, t)
+  | (i, o) :: rest, kern, t =>
+    match operate t i kern o with
+    | .error e => .error e
+    | .ok (kern', _, t') => operatePairs rest kern' t'
+
+/-- `Track.operate(Operator.FILTER, arg1, kernel[, arg3])`, the branch of `ScalarVoidOperator`:
+`if arg3 == None: arg3 = arg1` (output into the input feature); a `str` → `return operator.execute(...)`;
+lists → lengths compared (`OperatorError`), then one call per pair and `None` returned.
+Returns the caller's kernel after the call, the returned list if any, and the track. -/
+def operateArgs [BEq α] (t : Sigs α) (kern : KSrc α) : OpNames → Except Err (KSrc α × Option (List (Option α)) × Sigs α)
+  | .one i o =>
+    match operate t i kern (o.getD i) with
+    | .error e => .error e
+    | .ok (k', out, t') => .ok (k', some out, t')
+  | .many ins outs =>
+    let outs' := outs.getD ins
+    if ins.length ≠ outs'.length then .error .operands
+    else
+      match operatePairs (ins.zip outs') kern t with
+      | .error e => .error e
+      | .ok (k', t') => .ok (k', none, t')
 
 /-- the loop `for af in dim` of `filter_seq`; the weight list, if any, is the same Python object
 for every dimension, so it is re-normalised at each call. A coordinate is filtered into the feature
